@@ -13,7 +13,10 @@
 (*          was produced at time rel; the call returned lat ms after rel    *)
 (*          (returned = FALSE: not within the driver's watchdog).  A Write  *)
 (*          blocked for want of a write buffer (window token held) is then  *)
-(*          followed by one more Write that must go through.                *)
+(*          followed by one more Write that must go through.  A Read in     *)
+(*          progress while the carrier fails (or the multiplexer is closed)  *)
+(*          in the middle of a data payload is followed by another Read,    *)
+(*          SetReadDeadline(past) and Close, which must all return.          *)
 (* Hol:     one stream's reader is stalled with its writer blocked on the   *)
 (*          exhausted window; the other streams must move want[j] bytes.    *)
 (* Backlog: the peer never accepts; the opens beyond its accept backlog.    *)
@@ -22,7 +25,10 @@ EXTENDS Integers, Sequences
 
 \* follow (optional): after the blocked call returned, its deadline was cleared and the stream used again
 FollowOK(a, limit) == ("follow" \in DOMAIN a) => (a.follow.returned /\ a.follow.lat <= limit /\ a.follow.err = "")
-AttemptOK_Block(a, limit) == a.blocked /\ a.returned /\ a.lat <= limit /\ FollowOK(a, limit)
+\* follows (optional): further calls on the same stream after the blocked call was released; each must return
+FollowsOK(a, limit) == ("follows" \in DOMAIN a) =>
+  \A j \in DOMAIN a.follows : a.follows[j].returned /\ a.follows[j].lat <= limit
+AttemptOK_Block(a, limit) == a.blocked /\ a.returned /\ a.lat <= limit /\ FollowOK(a, limit) /\ FollowsOK(a, limit)
 C25_BlockReturns(r) ==
   (\E i \in DOMAIN r.attempts : r.attempts[i].blocked)
     => \E i \in DOMAIN r.attempts : AttemptOK_Block(r.attempts[i], r.limit)
